@@ -59,6 +59,14 @@ func init() {
 					us = append(us, core.Unit{Name: u, Weight: 2})
 				}
 			}
+			// values spelling format verbs, with the operators whose printing goes through a formatter
+			fm := 5
+			if tier == "thorough" {
+				fm = 7
+			}
+			for _, u := range enum.SeqUnits("tok", "fmt", len(enum.Alphabets["fmt"]), fm, 2) {
+				us = append(us, core.Unit{Name: u, Weight: 2})
+			}
 			if tier == "thorough" {
 				for _, a := range []string{"paren", "range", "unary", "bool", "cmp"} {
 					for _, u := range enum.SeqUnits("tok", a, len(enum.Alphabets[a]), 8, 2) {
@@ -107,7 +115,7 @@ func init() {
 		},
 		Eval:   c01Eval,
 		Shrink: shrinkFlat,
-		Rule: "TOK(Σ_full,N) ∪ BYTES(B_lex,L) ∪ BYTES(B_utf8,L+1) ∪ EDIT(1) of depth-1 trees (thorough: + five focused alphabets to length 8, EDIT on depth-2 trees, EDIT(2) on leaves), each x {no default field, default field} x six operations, in the statement-counting build; " +
+		Rule: "TOK(Σ_full,N) ∪ TOK(Σ_nf,7) ∪ TOK(Σ_fmt,5/7) ∪ BYTES(B_lex,L) ∪ BYTES(B_utf8,L+1) ∪ EDIT(1) of depth-1 trees (thorough: + five focused alphabets to length 8, EDIT on depth-2 trees, EDIT(2) on leaves), each x {no default field, default field} x six operations, in the statement-counting build; " +
 			"adversarial families frame(block^n) for all 812 blocks of 1-2 tokens x 6 frames, n doubling to 1024/8192 tokens, with exact statement and allocation counts; non-trivial = Parse accepted; distinct = distinct accepted trees",
 		Assumptions: []string{
 			"'polynomial' is decided as at most cubic growth of exact statement / allocation counts on 4 872 families up to the length bound, plus an absolute cap; not an asymptotic proof",
